@@ -302,7 +302,7 @@ fn third_party(out: &mut Outcome) -> Result<(), String> {
     let t0 = std::time::Instant::now();
     let mut parked = false;
     while t0.elapsed().as_millis() < 3000 && !w.is_done() {
-        if hook::site_hit_count(fvf::PRE_PARK) > 0 && w.thread_state() == 'S' {
+        if w.gate.lock_sites.load(std::sync::atomic::Ordering::SeqCst) > 0 && w.thread_state() == 'S' {
             parked = true;
             break;
         }
